@@ -12,13 +12,14 @@ EXTENDS DocComment, TLC, Json
 CONSTANTS Family, MaxLines, MaxTags, Dev, PosSet, IndentSet, KindSet
 
 SeqsOver(S, lo, hi) == UNION {[1..m -> S] : m \in lo..hi}
-Positions == {"struct", "field", "interface", "op", "enum", "enumerator", "custom", "alias"}
+\* ("enfield": a field of an enumerator, W(g: int32) of enum E2, written over several lines)
+Positions == {"struct", "field", "interface", "op", "enum", "enumerator", "custom", "alias", "enfield"}
 
 ----------------------------------------------------------------------------------------------------
 (* tags *)
 \* op0(p, q); op1(p) -> bool; op2(p) -> (r: bool, s: int32); op3(p) -> (p: bool, s: int32) - a return member named like a
 \* parameter; enumerator A(f: int32)
-TagPositions == {"op0", "op1", "op2", "op3", "struct", "enumerator"}
+TagPositions == {"op0", "op1", "op2", "op3", "struct", "enumerator", "field", "enfield"}
 Conts == <<  <<>>,
              << [indent |-> <<"sp", "sp", "sp">>, k |-> "t"] >>,
              << [indent |-> <<"sp", "sp">>, k |-> "t"], [indent |-> <<"sp", "sp", "sp">>, k |-> "lt"], [indent |-> <<>>, k |-> "blank"], [indent |-> <<"sp", "sp">>, k |-> "tl"] >>  >>
@@ -88,7 +89,7 @@ MultiItems == [pos : LinkPositions, where : {"link", "see"}, target : MultiTarge
 (* malformed *)
 Forms == {"unknown_tag", "at_alone", "missing_brace", "inline_param", "block_link", "param_no_id", "see_no_target", "stray_symbol",
           "link_no_target", "returns_stray", "see_with_message", "double_colon_end", "unknown_inline"}
-MalPositions == {"struct", "field", "op", "enumerator"}
+MalPositions == {"struct", "field", "op", "enumerator", "enfield"}
 \* "never cost the documented element or its siblings": these elements (a sibling field after x, a sibling enumerator after A,
 \* the last definition of the file) carry a well-formed comment 'Kept {@link S}.' which must survive - text, link and all -
 \* wherever the malformed comment stands (before them in the same file)
